@@ -331,6 +331,9 @@ func (tr *Tracer) shouldInline(st *state, callee *ssa.Function) bool {
 }
 
 func (c *Ctx) fnInModule(f *ssa.Function) bool {
+	if f == nil {
+		return false
+	}
 	if f.Pkg != nil {
 		return c.inModule(f.Pkg.Pkg)
 	}
